@@ -5,6 +5,7 @@ package main
 // Mutex, func values.
 
 import (
+	"fmt"
 	"reflect"
 	"slices"
 	"sort"
@@ -200,4 +201,32 @@ func cachePayloads(n *Node, h uint32) []*Payload {
 // txSubscribed reads the unexported txSubscriptionOn flag.
 func txSubscribed(n *Node) bool {
 	return reflect.ValueOf(n.d).Elem().FieldByName("Context").FieldByName("txSubscriptionOn").Bool()
+}
+
+// diffFields names the top-level Context/DBFT fields whose fingerprints differ between two nodes.
+func diffFields(a, b *Node, skip map[string]bool) string {
+	var out []string
+	var rec func(va, vb reflect.Value, prefix string, depth int)
+	rec = func(va, vb reflect.Value, prefix string, depth int) {
+		t := va.Type()
+		for i := 0; i < va.NumField(); i++ {
+			name := t.Field(i).Name
+			if skip[name] || name == "Config" || name == "Logger" || name == "Timer" || name == "Mutex" {
+				continue
+			}
+			fa := &fper{s: newHasher(), now: a.w.now, skip: skip}
+			fa.walk(va.Field(i))
+			fb := &fper{s: newHasher(), now: b.w.now, skip: skip}
+			fb.walk(vb.Field(i))
+			if fa.s.sum() != fb.s.sum() {
+				if name == "Context" && depth == 0 {
+					rec(va.Field(i), vb.Field(i), "Context.", 1)
+				} else {
+					out = append(out, prefix+name)
+				}
+			}
+		}
+	}
+	rec(reflect.ValueOf(a.d).Elem(), reflect.ValueOf(b.d).Elem(), "", 0)
+	return "differing fields: " + fmt.Sprint(out)
 }
